@@ -621,15 +621,15 @@ package queue
 //@   modifies durable, txOpen, txPending
 //@   ensures [C01:autocommit_statement] txOpen == old(txOpen) && durable >= old(durable) && (result1 == nil && !old(txOpen) ==> durable == old(durable) + 1) && (!old(txOpen) ==> txPending == old(txPending))
 //@ func (*SQLiteStore).Nack$1
-//@   requires conn != nil && s != nil
+//@   requires conn != nil
 //@   modifies durable, txOpen, txPending
 //@   ensures [C01:autocommit_statement] txOpen == old(txOpen) && durable >= old(durable) && (result1 == nil && !old(txOpen) ==> durable == old(durable) + 1) && (!old(txOpen) ==> txPending == old(txPending))
 //@ func (*SQLiteStore).Extend$1
-//@   requires conn != nil && s != nil
+//@   requires conn != nil
 //@   modifies durable, txOpen, txPending
 //@   ensures [C01:autocommit_statement] txOpen == old(txOpen) && durable >= old(durable) && (result1 == nil && !old(txOpen) ==> durable == old(durable) + 1) && (!old(txOpen) ==> txPending == old(txPending))
 //@ func (*SQLiteStore).MarkDead$1
-//@   requires conn != nil && s != nil
+//@   requires conn != nil
 //@   modifies durable, txOpen, txPending
 //@   ensures [C01:autocommit_statement] txOpen == old(txOpen) && durable >= old(durable) && (result1 == nil && !old(txOpen) ==> durable == old(durable) + 1) && (!old(txOpen) ==> txPending == old(txPending))
 
